@@ -9,10 +9,13 @@ Local Open Scope N_scope.
 Lemma generate_empty_insts : forall s g, gs_cancels g = [] -> gs_opens g = [] -> insts (fst (generate s g)) = insts s.
 Proof. intros s [cs os cm om] Hc Ho. cbn in Hc, Ho. subst. reflexivity. Qed.
 
+Lemma generate_empty_state : forall s g, gs_cancels g = [] -> gs_opens g = [] -> fst (generate s g) = s.
+Proof. intros [tr ls is_] [cs os cm om] Hc Ho. cbn in Hc, Ho. subst. reflexivity. Qed.
+
 Lemma process_command_parts : forall cs s c g,
   (exists tl, au_outputs (snd (process cs s (EvCommand c) g)) = OutCommanded (snd (action cs s c)) :: tl) /\
   (trading s = false \/ (gs_cancels g = [] /\ gs_opens g = []) ->
-   insts (fst (process cs s (EvCommand c) g)) = insts (fst (action cs s c))).
+   fst (process cs s (EvCommand c) g) = fst (action cs s c)).
 Proof.
   intros cs s c g. unfold process.
   pose proof (process_trace_shape cs s (EvCommand c) g) as Hsh. cbn [pre_step generation_runs] in Hsh. rewrite Hsh.
@@ -22,16 +25,106 @@ Proof.
       destruct (algo_empty _); [eexists; reflexivity|]. destruct (algo_unrec _); eexists; reflexivity.
     + intros [Ht|[Hc Ho]].
       * destruct (action_unrec (snd (action cs s c))); [congruence|discriminate].
-      * apply generate_empty_insts; assumption.
+      * apply generate_empty_state; assumption.
   - split; [eexists; reflexivity|reflexivity].
 Qed.
 
 Lemma obs_matches_parts : forall p s m o,
   obs_matches p s m o = true ->
-  ob_trading o = trading s /\ ob_insts o = iobs_of s /\ res_eqb p m (ob_res o) = true.
+  ob_trading o = trading s /\ ob_insts o = iobs_of s /\ res_eqb p m (ob_res o) = true /\
+  list_eqb (seq_eqb p xreq_eqb) (deliv_of s) (ob_deliv o) = true.
 Proof.
   intros p s m [tr dl io rs] E. unfold obs_matches in E. cbn in E. bool_hyps.
-  apply (list_eqb_true _ _ iobs_eqb_true) in H1. cbn. unfold iobs_of. auto.
+  apply (list_eqb_true _ _ iobs_eqb_true) in H1. cbn. unfold iobs_of, deliv_of. auto.
+Qed.
+
+(* ---- link table, deliveries, marks ---- *)
+Lemma clear_link_stat : forall l, clear_link l = link_of_stat (lstat_link l).
+Proof. intros [| | |]; reflexivity. Qed.
+
+Lemma clear_links_ext : forall ls ls',
+  (forall e, lstat_of ls' e = lstat_of ls e) -> map clear_link ls' = map clear_link ls.
+Proof.
+  intros ls ls' H. rewrite (map_ext _ _ clear_link_stat ls'), (map_ext _ _ clear_link_stat ls).
+  rewrite <- !(map_map lstat_link link_of_stat). f_equal. apply stats_ext. exact H.
+Qed.
+
+Lemma lstat_clear : forall ls e, lstat_of (map clear_link ls) e = lstat_of ls e.
+Proof.
+  intros. unfold lstat_of, nthN. rewrite nth_error_map. destruct (nth_error ls (N.to_nat e)) as [[| | |]|]; reflexivity.
+Qed.
+
+Lemma clear_clear : forall ls, map clear_link (map clear_link ls) = map clear_link ls.
+Proof. intros. apply clear_links_ext. intros e. apply lstat_clear. Qed.
+
+Lemma map_updN_const : forall A B (f : A -> B) (l : list A) n (a : A),
+  map f (updN l n (fun _ => a)) = updN (map f l) n (fun _ => f a).
+Proof.
+  intros A B f l n a. unfold updN. generalize (N.to_nat n). clear n.
+  induction l as [|x t IH]; intros [|k]; cbn; try reflexivity. rewrite IH. reflexivity.
+Qed.
+
+Lemma clear_link_of_stat : forall stt, clear_link (link_of_stat stt) = link_of_stat stt.
+Proof. intros []; reflexivity. Qed.
+
+Lemma Permutation_filter' : forall A (p : A -> bool) l l', Permutation l l' -> Permutation (filter p l) (filter p l').
+Proof.
+  induction 1; cbn.
+  - constructor.
+  - destruct (p x); [constructor|]; assumption.
+  - destruct (p x), (p y); try apply perm_swap; apply Permutation_refl.
+  - eapply Permutation_trans; eassumption.
+Qed.
+
+Lemma seq_eqb_perm : forall p a d, seq_eqb p xreq_eqb a d = true -> Permutation a d.
+Proof.
+  intros [|] a d H; unfold seq_eqb in H.
+  - apply (perm_of_perm_eqb _ xreq_eqb xreq_eqb_true xreq_eqb_refl). exact H.
+  - apply (list_eqb_true _ _ xreq_eqb_true) in H. subst. apply Permutation_refl.
+Qed.
+
+Lemma list_rel_indexed : forall A (R : A -> A -> bool) (la lb : list A) n,
+  list_eqb R la lb = true ->
+  length lb = length la /\
+  forall e d, In (e, d) (indexed_from n lb) -> exists a, In (e, a) (indexed_from n la) /\ R a d = true.
+Proof.
+  induction la as [|x t IH]; intros [|y u] n H; cbn in H; try discriminate.
+  - split; [reflexivity|]. intros e d [].
+  - apply andb_true_iff in H. destruct H as [Hxy H]. destruct (IH u (N.succ n) H) as [Hl Hin].
+    split; [cbn; congruence|]. intros e d [E|Hd].
+    + inversion E; subst. exists x. split; [left; reflexivity|exact Hxy].
+    + destruct (Hin e d Hd) as [a [Ha Hr]]. exists a. split; [right; exact Ha|exact Hr].
+Qed.
+
+(** deliveries observed (equal to the model's mailboxes, as lists or as multisets) = exactly the sent
+    requests per link *)
+Lemma delivered_from_model : forall p s1 L deliv sent_m sent_obs,
+  list_eqb (seq_eqb p xreq_eqb) (deliv_of s1) deliv = true ->
+  length (links s1) = length L ->
+  (forall e, mbox (links s1) e = to_ex e sent_m) ->
+  Permutation sent_m sent_obs ->
+  delivered_ok L deliv sent_obs = true.
+Proof.
+  intros p s1 L deliv sent_m sent_obs Hd Hl Hmb Hp. unfold delivered_ok.
+  destruct (list_rel_indexed _ _ _ _ 0 Hd) as [Hlen Hin]. fold (indexed deliv) in Hin. fold (indexed (deliv_of s1)) in Hin.
+  rewrite Hlen, length_deliv, Hl, Nat.eqb_refl. cbn [andb].
+  apply forallb_forall. intros [e d] Hed. destruct (Hin e d Hed) as [a [Ha Hr]]. cbn [fst snd].
+  rewrite indexed_deliv in Ha. apply in_map_iff in Ha. destruct Ha as [k [E _]]. inversion E; subst.
+  apply seq_eqb_perm in Hr. rewrite Hmb in Hr.
+  apply (perm_eqb_of_perm _ xreq_eqb). apply Permutation_sym.
+  eapply Permutation_trans; [|exact Hr]. apply Permutation_sym. unfold to_ex. apply Permutation_filter'. exact Hp.
+Qed.
+
+Lemma consistent_spec : forall R (eqb : R -> R -> bool) (ex : R -> N) ls rs (out : sendout R),
+  (forall a b, eqb a b = true -> a = b) -> (forall a, eqb a a = true) ->
+  Permutation (spec_sent ex ls rs) (so_sent out) -> Permutation (spec_errs ex ls rs) (so_errs out) ->
+  consistent ex ls out = true.
+Proof.
+  intros R eqb ex ls rs out _ _ Hs He. unfold consistent. apply andb_true_iff. split; apply forallb_forall.
+  - intros r Hr. apply Permutation_sym in Hs. apply (Permutation_in _ Hs) in Hr. apply spec_sent_in in Hr. apply Hr.
+  - intros [r k] Hr. apply Permutation_sym in He. apply (Permutation_in _ He) in Hr. unfold spec_errs in Hr.
+    apply in_map_iff in Hr. destruct Hr as [r' [E Hr']]. inversion E; subst. apply filter_In in Hr'. destruct Hr' as [_ Hn].
+    cbn [fst snd]. rewrite Hn. destruct (err_of_stat (lstat_of ls (ex r))); reflexivity.
 Qed.
 
 Lemma obs_insts_id : forall l0 l1,
@@ -162,7 +255,8 @@ Qed.
 
 
 Definition Rel (s : state) (v : cview) : Prop :=
-  cv_insts v = insts s /\ cv_trading v = trading s /\ prev_ok s (cv_prev v).
+  cv_insts v = insts s /\ cv_trading v = trading s /\ prev_ok s (cv_prev v) /\
+  cv_links v = map clear_link (links s).
 
 Lemma report_audit_cancel : forall au out_m tl r,
   au_outputs au = OutCommanded (AOCancel out_m) :: tl ->
@@ -187,13 +281,6 @@ Proof.
 Qed.
 
 (** the state a command step leaves, when no generation may have run *)
-Lemma command_insts : forall (isproc : bool) cs s0 c g,
-  (isproc = true -> trading s0 = false \/ (gs_cancels g = [] /\ gs_opens g = [])) ->
-  insts (if isproc then fst (process cs s0 (EvCommand c) g) else fst (action cs s0 c)) = insts (fst (action cs s0 c)).
-Proof.
-  intros [|] cs s0 c g H; [|reflexivity]. apply (proj2 (process_command_parts cs s0 c g)). apply H. reflexivity.
-Qed.
-
 Lemma maybe_generation_false : forall v g cl ob ev s0,
   cv_trading v = trading s0 ->
   maybe_generation v (mkStep (OpProcess ev) g cl ob) = false ->
@@ -204,29 +291,72 @@ Proof.
   apply negb_false_iff in H. destruct (gs_cancels g); [|discriminate]. destruct (gs_opens g); [auto|discriminate].
 Qed.
 
-Ltac trivial_step Hafter Ot :=
-  eexists; split; [reflexivity|split; [exact Hafter|split; [exact Ot|exact I]]].
 
 Lemma prev_ok_insts : forall a b p, insts a = insts b -> prev_ok a p -> prev_ok b p.
 Proof. intros a b [[f sent0]|] H Hp; [|exact I]. cbn in *. rewrite <- H. exact Hp. Qed.
 
+Lemma default_close_valid19 : forall strat gen s f,
+  state_wf s = true -> valid_opens (insts s) (snd (default_close strat gen s f)) = true.
+Proof.
+  intros strat gen s f Hwf. unfold valid_opens. apply forallb_forall. intros r Hr.
+  destruct (default_close_spec strat gen s f) as (_ & Hin & _). apply Hin in Hr.
+  destruct Hr as (i & x & p & pr & Hn & _ & Hp & _ & ->). cbn [or_key k_inst].
+  pose proof (state_wf_inst s i x Hwf Hn) as Hi. apply inst_wf_parts in Hi. destruct Hi as (_ & _ & Hpi).
+  rewrite Hp in Hpi. apply N.eqb_eq in Hpi. rewrite Hpi. unfold has_inst. rewrite Hn. reflexivity.
+Qed.
+
+(** the link table after a model step, mailboxes cleared, is what the oracle tracks *)
+Lemma model_step_links : forall s0 st,
+  map clear_link (links (fst (model_step s0 st))) =
+  match st_op st with
+  | OpSetLink e stt => updN (map clear_link (links s0)) e (fun _ => link_of_stat stt)
+  | _ => map clear_link (links s0)
+  end.
+Proof.
+  intros s0 [o g cl ob]. unfold model_step. cbn [st_op st_g st_close]. destruct o as [ev| |c|e stt|h c].
+  - apply clear_links_ext. intros e. unfold process.
+    pose proof (process_delivery (cs_of cl) s0 ev g e) as H. cbn zeta in H.
+    destruct (process_trace (cs_of cl) s0 ev g) as [s' t]. cbn [fst] in *. apply H.
+  - apply clear_links_ext. pose proof (generate_spec s0 g) as H. cbn zeta in H.
+    destruct (generate s0 g). cbn [fst] in *. apply H.
+  - apply clear_links_ext. pose proof (action_spec (cs_of cl) s0 c) as H. cbn zeta in H.
+    destruct (action (cs_of cl) s0 c). cbn [fst] in *. apply H.
+  - cbn [fst links]. rewrite map_updN_const, clear_link_of_stat. reflexivity.
+  - destruct (hook_fires h (trading s0)); [|reflexivity].
+    apply clear_links_ext. pose proof (action_spec (cs_of cl) (hook_state h s0) c) as H. cbn zeta in H.
+    destruct (action (cs_of cl) (hook_state h s0) c). cbn [fst] in *.
+    intros e. destruct H as (_ & _ & _ & Hst & _). rewrite Hst. destruct h; reflexivity.
+Qed.
+
+Ltac trivial_step Hafter Ot Hl1 :=
+  eexists; split; [reflexivity|split; [exact Hafter|split; [exact Ot|split; [exact I|exact Hl1]]]].
+
 (** a cancel-orders step, whatever the public entry point: [sb] is the state the action runs on *)
-Lemma cancel_step : forall s v st sb s1 f out,
-  Rel s v -> state_wf sb = true -> insts sb = insts s ->
+Lemma cancel_step : forall p s v st sb s1 f out,
+  Rel s v -> state_wf sb = true -> insts sb = insts s -> links sb = cv_links v ->
+  (forall e, mbox (links sb) e = []) ->
+  match st_op st with OpSetLink _ _ => False | _ => True end ->
   the_command (cv_trading v) st = Some (CCancelOrders f) ->
   obs_insts (cv_insts v) (ob_insts (st_obs st)) = insts s1 ->
   ob_trading (st_obs st) = trading s1 ->
+  map clear_link (links s1) = cv_links v ->
+  list_eqb (seq_eqb p xreq_eqb) (deliv_of s1) (ob_deliv (st_obs st)) = true ->
   the_report st = Some (AOCancel out) ->
   sendout_eqb true creq_eqb
     (mkSendOut (spec_sent cr_ex (links sb) (cancel_requests f (insts sb)))
                (spec_errs cr_ex (links sb) (cancel_requests f (insts sb)))) out = true ->
   (maybe_generation v st = false ->
-   insts s1 = insts (fst (action (cs_of (st_close st)) sb (CCancelOrders f)))) ->
+   s1 = fst (action (cs_of (st_close st)) sb (CCancelOrders f))) ->
   exists v', oracle_step v st = (true, v') /\ Rel s1 v'.
 Proof.
-  intros s v st sb s1 f out (Ri & Rt & Rp) Hwf Hib Hcmd Hafter Ot Hrep Hout Hgen.
+  intros p s v st sb s1 f out (Ri & Rt & Rp & Rl) Hwf Hib Hl Hclr Hop Hcmd Hafter Ot Hl1 Hdel Hrep Hout Hgen.
   destruct (cancel_scope_ok _ _ _ _ Hout) as (Hscope & Hin & Hopen).
-  unfold oracle_step. rewrite Hcmd, Hrep. rewrite Hafter, Ri, <- Hib. rewrite Hscope. cbn [andb].
+  pose proof (sendout_perm _ _ creq_eqb_true creq_eqb_refl _ _ Hout) as [Hps Hpe]. cbn [so_sent so_errs] in Hps, Hpe.
+  assert (Hcons : consistent cr_ex (cv_links v) out = true)
+    by (rewrite <- Hl; eapply consistent_spec; [apply creq_eqb_true|apply creq_eqb_refl|exact Hps|exact Hpe]).
+  assert (Hlinks' : match st_op st with OpSetLink e stt => updN (cv_links v) e (fun _ => link_of_stat stt) | _ => cv_links v end = cv_links v)
+    by (destruct (st_op st); try reflexivity; destruct Hop).
+  unfold oracle_step. rewrite Hcmd, Hrep, Hlinks'. rewrite Hafter, Ri, <- Hib. rewrite Hscope, Hcons. cbn [andb].
   assert (Hrepeat :
     match cv_prev v with
     | Some (f0, sent0) => if filter_eqb f0 f then forallb (fun r => negb (existsb (creq_eqb r) sent0)) (reqs_of out) else true
@@ -235,36 +365,117 @@ Proof.
   { destruct (cv_prev v) as [[f0 sent0]|] eqn:Ep; [|reflexivity].
     destruct (filter_eqb f0 f) eqn:Ef; [|reflexivity].
     eapply (cancel_repeat_ok sb); [eapply prev_ok_insts; [symmetry; exact Hib|exact Rp]|exact Ef|exact Hin]. }
-  rewrite Hrepeat, andb_true_r.
+  rewrite Hrepeat.
   destruct (maybe_generation v st) eqn:Emg.
-  - cbn [orb]. eexists. split; [reflexivity|]. split; [reflexivity|]. split; [exact Ot|exact I].
+  - cbn [orb andb]. eexists. split; [reflexivity|]. split; [reflexivity|]. split; [exact Ot|]. split; [exact I|symmetry; exact Hl1].
   - specialize (Hgen eq_refl).
-    cbn [orb]. rewrite (cancel_frame_ok (cs_of (st_close st)) sb f (insts s1) Hwf Hgen).
-    eexists. split; [reflexivity|]. split; [reflexivity|]. split; [exact Ot|].
-    cbn [cv_prev prev_ok]. exists (cs_of (st_close st)), sb. split; [exact Hwf|]. split; [exact Hgen|exact Hopen].
+    assert (Hins : insts s1 = insts (fst (action (cs_of (st_close st)) sb (CCancelOrders f)))) by (rewrite Hgen; reflexivity).
+    pose proof (action_spec (cs_of (st_close st)) sb (CCancelOrders f)) as Ha. cbn zeta in Ha.
+    cbn [command_requests fst snd] in Ha. rewrite cancel_orders_output in Ha. cbn [action_cancels action_opens action_sent so_sent] in Ha.
+    destruct Ha as (_ & _ & _ & Hst & Hmb & _ & _ & Hmk). rewrite <- Hgen in Hst, Hmb, Hmk.
+    (* deliveries *)
+    assert (Hdl : delivered_ok (cv_links v) (ob_deliv (st_obs st)) (map XCancel (so_sent out)) = true).
+    { eapply (delivered_from_model p s1); [exact Hdel| | |apply Permutation_map; exact Hps].
+      - rewrite <- Hl. apply stats_length. exact Hst.
+      - intros e. rewrite Hmb, Hclr. reflexivity. }
+    (* marks *)
+    assert (Hmarks : cancel_marks_ok (insts sb) (insts s1) (so_sent out) = true).
+    { unfold cancel_marks_ok. apply forallb_forall. intros r Hr.
+      assert (Hrm : In r (spec_sent cr_ex (links sb) (cancel_requests f (insts sb))))
+        by (eapply Permutation_in; [apply Permutation_sym; exact Hps|exact Hr]).
+      pose proof (spec_sent_in _ _ _ _ _ Hrm) as [Hrq _].
+      apply cancel_requests_spec in Hrq; [|exact Hwf].
+      destruct Hrq as (i & x & c & o & Hn & _ & Hg & _ & ->).
+      destruct (inst_wf_key i x c o (state_wf_inst sb i x Hwf Hn) Hg) as [Hi Hc].
+      cbn [cancel_of_order cr_key]. rewrite Hi, Hc.
+      assert (Hb : ord (insts sb) i c = Some o) by (unfold ord; rewrite Hn; exact Hg).
+      rewrite Hb, (Hmk eq_refl i c). unfold marked. cbn [last_open].
+      assert (Hnm : names_c i c (spec_sent cr_ex (links sb) (cancel_requests f (insts sb))) = true).
+      { apply existsb_exists. exists (cancel_of_order o). split; [exact Hrm|].
+        unfold key_at, cancel_of_order. cbn. rewrite Hi, Hc, !N.eqb_refl. reflexivity. }
+      rewrite Hnm, Hb. cbn [mark_cancel]. apply option_eqb_refl, order_eqb_refl. }
+    cbn [orb]. rewrite Hdl, Hmarks, (cancel_frame_ok (cs_of (st_close st)) sb f (insts s1) Hwf Hins). cbn [andb].
+    eexists. split; [reflexivity|]. split; [reflexivity|]. split; [exact Ot|]. split; [|symmetry; exact Hl1].
+    cbn [cv_prev prev_ok]. exists (cs_of (st_close st)), sb. split; [exact Hwf|]. split; [exact Hins|exact Hopen].
+Qed.
+
+Lemma default_close_key_unique : forall strat gen s f r r',
+  state_wf s = true ->
+  In r (snd (default_close strat gen s f)) -> In r' (snd (default_close strat gen s f)) ->
+  k_inst (or_key r') = k_inst (or_key r) -> r' = r.
+Proof.
+  intros strat gen s f r r' Hwf Hr Hr' Hk.
+  destruct (default_close_spec strat gen s f) as (_ & Hin & _).
+  apply Hin in Hr. apply Hin in Hr'.
+  destruct Hr as (i & x & p & pr & Hn & _ & Hp & Hpr & ->).
+  destruct Hr' as (i' & x' & p' & pr' & Hn' & _ & Hp' & Hpr' & ->). cbn in Hk.
+  pose proof (state_wf_inst s i x Hwf Hn) as Hi. apply inst_wf_parts in Hi. destruct Hi as (_ & _ & Hpi).
+  pose proof (state_wf_inst s i' x' Hwf Hn') as Hi'. apply inst_wf_parts in Hi'. destruct Hi' as (_ & _ & Hpi').
+  rewrite Hp in Hpi. rewrite Hp' in Hpi'. apply N.eqb_eq in Hpi. apply N.eqb_eq in Hpi'.
+  assert (E : i' = i) by congruence. rewrite E in Hn'. rewrite Hn in Hn'. inversion Hn'; subst x'. rewrite E.
+  rewrite Hp in Hp'. inversion Hp'; subst p'. rewrite Hpr in Hpr'. inversion Hpr'; subst pr'. reflexivity.
 Qed.
 
 (** a close-positions step with the default strategy, whatever the public entry point *)
-Lemma close_step : forall s v st sb s1 f strat base,
-  Rel s v -> state_wf sb = true -> insts sb = insts s ->
+Lemma close_step : forall p s v st sb s1 f strat base,
+  Rel s v -> state_wf sb = true -> insts sb = insts s -> links sb = cv_links v ->
+  (forall e, mbox (links sb) e = []) ->
+  match st_op st with OpSetLink _ _ => False | _ => True end ->
   st_close st = CloseDefault strat base ->
   the_command (cv_trading v) st = Some (CClosePositions f) ->
   obs_insts (cv_insts v) (ob_insts (st_obs st)) = insts s1 ->
   ob_trading (st_obs st) = trading s1 ->
+  map clear_link (links s1) = cv_links v ->
+  list_eqb (seq_eqb p xreq_eqb) (deliv_of s1) (ob_deliv (st_obs st)) = true ->
   the_report st = Some (snd (action (default_close strat (fun i => base + i)) sb (CClosePositions f))) ->
   (maybe_generation v st = false ->
-   insts s1 = insts (fst (action (default_close strat (fun i => base + i)) sb (CClosePositions f)))) ->
+   s1 = fst (action (default_close strat (fun i => base + i)) sb (CClosePositions f))) ->
   exists v', oracle_step v st = (true, v') /\ Rel s1 v'.
 Proof.
-  intros s v st sb s1 f strat base (Ri & Rt & Rp) Hwf Hib Hcl Hcmd Hafter Ot Hrep Hgen.
-  unfold oracle_step. rewrite Hcmd, Hrep, Hcl.
-  rewrite close_positions_output. rewrite Hafter, Ri, <- Hib.
-  rewrite close_scope_ok. cbn [reqs_of so_sent so_errs map app andb].
+  intros p s v st sb s1 f strat base (Ri & Rt & Rp & Rl) Hwf Hib Hl Hclr Hop Hcl Hcmd Hafter Ot Hl1 Hdel Hrep Hgen.
+  assert (Hlinks' : match st_op st with OpSetLink e stt => updN (cv_links v) e (fun _ => link_of_stat stt) | _ => cv_links v end = cv_links v)
+    by (destruct (st_op st); try reflexivity; destruct Hop).
+  set (gen := fun i => base + i) in *.
+  set (rq := snd (default_close strat gen sb f)).
+  unfold oracle_step. rewrite Hcmd, Hrep, Hcl, Hlinks'.
+  rewrite close_positions_output. fold rq. rewrite Hafter, Ri, <- Hib.
+  pose proof (close_scope_ok strat base sb f) as Hsc. cbn zeta in Hsc. fold gen rq in Hsc. rewrite Hsc.
+  assert (Hc1 : consistent cr_ex (cv_links v) (mkSendOut [] []) = true) by reflexivity.
+  assert (Hc2 : consistent or_ex (cv_links v) (mkSendOut (spec_sent or_ex (links sb) rq) (spec_errs or_ex (links sb) rq)) = true)
+    by (rewrite <- Hl; eapply consistent_spec; [apply oreq_eqb_true|apply oreq_eqb_refl|apply Permutation_refl|apply Permutation_refl]).
+  rewrite Hc1, Hc2. cbn [reqs_of so_sent so_errs map app andb].
   destruct (maybe_generation v st) eqn:Emg.
-  - cbn [orb]. eexists. split; [reflexivity|]. split; [reflexivity|]. split; [exact Ot|exact I].
+  - cbn [orb andb]. eexists. split; [reflexivity|]. split; [reflexivity|]. split; [exact Ot|]. split; [exact I|symmetry; exact Hl1].
   - specialize (Hgen eq_refl).
-    cbn [orb]. rewrite (close_frame_ok strat (fun i => base + i) sb f (insts s1) Hwf Hgen).
-    eexists. split; [reflexivity|]. split; [reflexivity|]. split; [exact Ot|exact I].
+    assert (Hins : insts s1 = insts (fst (action (default_close strat gen) sb (CClosePositions f)))) by (rewrite Hgen; reflexivity).
+    pose proof (action_spec (default_close strat gen) sb (CClosePositions f)) as Ha. cbn zeta in Ha.
+    rewrite close_positions_output in Ha. fold rq in Ha. cbn [action_cancels action_opens action_sent so_sent] in Ha.
+    destruct Ha as (_ & _ & _ & Hst & Hmb & _ & _ & Hmk). rewrite <- Hgen in Hst, Hmb, Hmk.
+    assert (Hval : valid_opens (insts sb) (spec_sent or_ex (links sb) rq) = true).
+    { pose proof (default_close_valid19 strat gen sb f Hwf) as Hv. fold rq in Hv. unfold valid_opens in *.
+      rewrite forallb_forall in *. intros r Hr. apply Hv. apply spec_sent_in in Hr. apply Hr. }
+    assert (Hdl : delivered_ok (cv_links v) (ob_deliv (st_obs st))
+                    (map XCancel [] ++ map XOpen (spec_sent or_ex (links sb) rq)) = true).
+    { eapply (delivered_from_model p s1); [exact Hdel| | |apply Permutation_refl].
+      - rewrite <- Hl. apply stats_length. exact Hst.
+      - intros e. rewrite Hmb, Hclr. reflexivity. }
+    assert (Hmarks : open_marks_ok (insts s1) (spec_sent or_ex (links sb) rq) = true).
+    { unfold open_marks_ok. apply forallb_forall. intros r Hr.
+      rewrite (Hmk Hval). unfold marked.
+      destruct (last_open (k_inst (or_key r)) (k_cid (or_key r)) (spec_sent or_ex (links sb) rq)) as [r'|] eqn:El.
+      - apply last_open_some in El. destruct El as [Hr' Hk]. unfold key_at in Hk. apply andb_true_iff in Hk.
+        destruct Hk as [Hk _]. apply N.eqb_eq in Hk.
+        assert (r' = r) as ->.
+        { apply (default_close_key_unique strat gen sb f r r' Hwf); [| |exact Hk].
+          - apply spec_sent_in in Hr. apply Hr.
+          - apply spec_sent_in in Hr'. apply Hr'. }
+        apply option_eqb_refl, order_eqb_refl.
+      - exfalso. apply last_open_none in El.
+        assert (names_o (k_inst (or_key r)) (k_cid (or_key r)) (spec_sent or_ex (links sb) rq) = true) as X.
+        { apply existsb_exists. exists r. split; [exact Hr|]. unfold key_at. rewrite !N.eqb_refl. reflexivity. }
+        congruence. }
+    cbn [orb]. cbn [map app] in Hdl. rewrite Hdl, Hmarks, (close_frame_ok strat gen sb f (insts s1) Hwf Hins). cbn [andb].
+    eexists. split; [reflexivity|]. split; [reflexivity|]. split; [exact Ot|]. split; [exact I|symmetry; exact Hl1].
 Qed.
 
 Lemma sound_step19 : forall s v st,
@@ -275,20 +486,26 @@ Lemma sound_step19 : forall s v st,
 Proof.
   intros s v [o g cl ob] Hwf HR s0 Hm. cbn [st_op st_obs] in Hm.
   pose proof (model_step_static s0 (mkStep o g cl ob)) as Hstat.
-  apply obs_matches_parts in Hm. destruct Hm as (Ot & Oi & Ores).
+  pose proof (model_step_links s0 (mkStep o g cl ob)) as Hlk. cbn [st_op] in Hlk.
+  apply obs_matches_parts in Hm. destruct Hm as (Ot & Oi & Ores & Odel).
   assert (Hafter : obs_insts (cv_insts v) (ob_insts ob) = insts (fst (model_step s0 (mkStep o g cl ob)))).
   { destruct HR as (Ri & _). rewrite Oi, Ri. apply obs_insts_id. exact Hstat. }
   assert (Rt : cv_trading v = trading s0) by (destruct HR as (_ & Rt & _); exact Rt).
+  assert (Rl : links s0 = cv_links v) by (destruct HR as (_ & _ & _ & Rl); symmetry; exact Rl).
+  assert (Hclr : forall e, mbox (links s0) e = []) by (apply mbox_clear_state).
+  assert (Hcc : map clear_link (links s0) = cv_links v) by (rewrite <- Rl; unfold s0, clear_state; cbn [links]; apply clear_clear).
+  rewrite Hcc in Hlk.
   unfold model_step in *. cbn [st_op st_g st_close] in *.
   destruct o as [ev| |c|e stt|h c].
   - (* process *)
     rewrite (surjective_pairing (process (cs_of cl) s0 ev g)) in *. cbn [fst snd] in *.
-    destruct ev as [|c| | | | | | | | | |]; try (unfold oracle_step; cbn [the_command st_op]; trivial_step Hafter Ot).
-    destruct c as [rs|rs|f|f]; try (unfold oracle_step; cbn [the_command st_op]; trivial_step Hafter Ot).
+    assert (Hl1 : cv_links v = map clear_link (links (fst (process (cs_of cl) s0 ev g)))) by (symmetry; exact Hlk).
+    destruct ev as [|c| | | | | | | | | |]; try (unfold oracle_step; cbn [the_command st_op]; trivial_step Hafter Ot Hl1).
+    destruct c as [rs|rs|f|f]; try (unfold oracle_step; cbn [the_command st_op]; trivial_step Hafter Ot Hl1).
     + (* close positions *)
-      destruct cl as [strat base|cs os]; [|unfold oracle_step; cbn [the_command st_op st_close]; trivial_step Hafter Ot].
-      eapply (close_step s v) with (sb := s0) (strat := strat) (base := base) (f := f);
-        [exact HR|exact Hwf|reflexivity|reflexivity|reflexivity|exact Hafter|exact Ot| |].
+      destruct cl as [strat base|cs os]; [|unfold oracle_step; cbn [the_command st_op st_close]; trivial_step Hafter Ot Hl1].
+      eapply (close_step _ s v) with (sb := s0) (strat := strat) (base := base) (f := f);
+        [exact HR|exact Hwf|reflexivity|exact Rl|exact Hclr|exact I|reflexivity|reflexivity|exact Hafter|exact Ot|exact Hlk|exact Odel| |].
       * cbn [hash_ordered] in Ores. apply res_eqb_exact in Ores. unfold the_report. cbn [st_obs]. rewrite Ores. cbn [res_of].
         destruct (proj1 (process_command_parts (cs_of (CloseDefault strat base)) s0 (CClosePositions f) g)) as [tl Htl].
         rewrite Htl. reflexivity.
@@ -299,53 +516,62 @@ Proof.
       destruct (proj1 (process_command_parts (cs_of cl) s0 (CCancelOrders f) g)) as [tl Htl].
       rewrite cancel_orders_output in Htl.
       destruct (report_audit_cancel _ _ _ _ Htl Ores) as (bu & out & tl' & Er & Eo & Hout).
-      eapply (cancel_step s v) with (sb := s0) (f := f) (out := out);
-        [exact HR|exact Hwf|reflexivity|reflexivity|exact Hafter|exact Ot| |exact Hout|].
+      eapply (cancel_step _ s v) with (sb := s0) (f := f) (out := out);
+        [exact HR|exact Hwf|reflexivity|exact Rl|exact Hclr|exact I|reflexivity|exact Hafter|exact Ot|exact Hlk|exact Odel| |exact Hout|].
       * unfold the_report. cbn [st_obs]. rewrite Er, Eo. reflexivity.
       * intros Emg. apply (proj2 (process_command_parts (cs_of cl) s0 (CCancelOrders f) g)).
         eapply maybe_generation_false; [exact Rt|exact Emg].
-  - unfold oracle_step; cbn [the_command st_op]. rewrite (surjective_pairing (generate s0 g)) in *. cbn [fst] in *.
-    trivial_step Hafter Ot.
+  - rewrite (surjective_pairing (generate s0 g)) in *. cbn [fst] in *.
+    assert (Hl1 : cv_links v = map clear_link (links (fst (generate s0 g)))) by (symmetry; exact Hlk).
+    unfold oracle_step; cbn [the_command st_op]. trivial_step Hafter Ot Hl1.
   - (* direct action *)
     rewrite (surjective_pairing (action (cs_of cl) s0 c)) in *. cbn [fst snd] in *.
-    destruct c as [rs|rs|f|f]; try (unfold oracle_step; cbn [the_command st_op]; trivial_step Hafter Ot).
-    + destruct cl as [strat base|cs os]; [|unfold oracle_step; cbn [the_command st_op st_close]; trivial_step Hafter Ot].
-      eapply (close_step s v) with (sb := s0) (strat := strat) (base := base) (f := f);
-        [exact HR|exact Hwf|reflexivity|reflexivity|reflexivity|exact Hafter|exact Ot| |].
+    assert (Hl1 : cv_links v = map clear_link (links (fst (action (cs_of cl) s0 c)))) by (symmetry; exact Hlk).
+    destruct c as [rs|rs|f|f]; try (unfold oracle_step; cbn [the_command st_op]; trivial_step Hafter Ot Hl1).
+    + destruct cl as [strat base|cs os]; [|unfold oracle_step; cbn [the_command st_op st_close]; trivial_step Hafter Ot Hl1].
+      eapply (close_step _ s v) with (sb := s0) (strat := strat) (base := base) (f := f);
+        [exact HR|exact Hwf|reflexivity|exact Rl|exact Hclr|exact I|reflexivity|reflexivity|exact Hafter|exact Ot|exact Hlk|exact Odel| |].
       * cbn [hash_ordered] in Ores. apply res_eqb_exact in Ores. unfold the_report. cbn [st_obs]. rewrite Ores. reflexivity.
       * intros _. reflexivity.
     + cbn [hash_ordered] in Ores. rewrite cancel_orders_output in Ores.
       destruct (report_action_cancel _ _ Ores) as (out & Er & Hout).
-      eapply (cancel_step s v) with (sb := s0) (f := f) (out := out);
-        [exact HR|exact Hwf|reflexivity|reflexivity|exact Hafter|exact Ot| |exact Hout|].
+      eapply (cancel_step _ s v) with (sb := s0) (f := f) (out := out);
+        [exact HR|exact Hwf|reflexivity|exact Rl|exact Hclr|exact I|reflexivity|exact Hafter|exact Ot|exact Hlk|exact Odel| |exact Hout|].
       * unfold the_report. cbn [st_obs]. rewrite Er. reflexivity.
       * intros _. reflexivity.
-  - unfold oracle_step; cbn [the_command st_op]. cbn [fst] in *. trivial_step Hafter Ot.
+  - (* environment: the link table changes *)
+    cbn [fst] in *.
+    unfold oracle_step; cbn [the_command st_op].
+    eexists. split; [reflexivity|]. split; [exact Hafter|]. split; [exact Ot|]. split; [exact I|]. cbn [cv_links]. symmetry. exact Hlk.
   - (* strategy hook calling the trait method *)
     destruct (hook_fires h (trading s0)) eqn:Hf.
     + rewrite (surjective_pairing (action (cs_of cl) (hook_state h s0) c)) in *. cbn [fst snd] in *.
+      assert (Hl1 : cv_links v = map clear_link (links (fst (action (cs_of cl) (hook_state h s0) c)))) by (symmetry; exact Hlk).
       assert (Hwfb : state_wf (hook_state h s0) = true) by (destruct h; exact Hwf).
       assert (Hib : insts (hook_state h s0) = insts s) by (destruct h; reflexivity).
+      assert (Hlb : links (hook_state h s0) = cv_links v) by (destruct h; exact Rl).
+      assert (Hclrb : forall e, mbox (links (hook_state h s0)) e = []) by (destruct h; exact Hclr).
       assert (Hcmd : forall c', c' = c -> the_command (cv_trading v) (mkStep (OpHook h c) g cl ob) = Some c')
         by (intros c' ->; unfold the_command; cbn [st_op]; rewrite Rt, Hf; reflexivity).
       destruct c as [rs|rs|f|f];
-        try (unfold oracle_step; rewrite (Hcmd _ eq_refl); trivial_step Hafter Ot).
+        try (unfold oracle_step; rewrite (Hcmd _ eq_refl); trivial_step Hafter Ot Hl1).
       * destruct cl as [strat base|cs os];
-          [|unfold oracle_step; rewrite (Hcmd _ eq_refl); cbn [st_close]; trivial_step Hafter Ot].
-        eapply (close_step s v) with (sb := hook_state h s0) (strat := strat) (base := base) (f := f);
-          [exact HR|exact Hwfb|exact Hib|reflexivity|exact (Hcmd _ eq_refl)|exact Hafter|exact Ot| |].
+          [|unfold oracle_step; rewrite (Hcmd _ eq_refl); cbn [st_close]; trivial_step Hafter Ot Hl1].
+        eapply (close_step _ s v) with (sb := hook_state h s0) (strat := strat) (base := base) (f := f);
+          [exact HR|exact Hwfb|exact Hib|exact Hlb|exact Hclrb|exact I|reflexivity|exact (Hcmd _ eq_refl)|exact Hafter|exact Ot|exact Hlk|exact Odel| |].
         -- cbn [hash_ordered] in Ores. apply res_eqb_exact in Ores. unfold the_report. cbn [st_obs]. rewrite Ores. reflexivity.
         -- intros _. reflexivity.
       * cbn [hash_ordered] in Ores. rewrite cancel_orders_output in Ores.
         destruct (report_action_cancel _ _ Ores) as (out & Er & Hout).
-        eapply (cancel_step s v) with (sb := hook_state h s0) (f := f) (out := out);
-          [exact HR|exact Hwfb|exact Hib|exact (Hcmd _ eq_refl)|exact Hafter|exact Ot| |exact Hout|].
+        eapply (cancel_step _ s v) with (sb := hook_state h s0) (f := f) (out := out);
+          [exact HR|exact Hwfb|exact Hib|exact Hlb|exact Hclrb|exact I|exact (Hcmd _ eq_refl)|exact Hafter|exact Ot|exact Hlk|exact Odel| |exact Hout|].
         -- unfold the_report. cbn [st_obs]. rewrite Er. reflexivity.
         -- intros _. reflexivity.
     + cbn [fst snd] in *. unfold oracle_step.
+      assert (Hl1 : cv_links v = map clear_link (links s0)) by (symmetry; exact Hlk).
       assert (the_command (cv_trading v) (mkStep (OpHook h c) g cl ob) = None) as Hn
         by (unfold the_command; cbn [st_op]; rewrite Rt, Hf; reflexivity).
-      rewrite Hn. trivial_step Hafter Ot.
+      rewrite Hn. trivial_step Hafter Ot Hl1.
 Qed.
 
 Lemma sound_run19 : forall steps s v,
@@ -367,5 +593,5 @@ Proof.
   intros c Hv Hc. unfold valid_case in Hv. apply andb_true_iff in Hv. destruct Hv as [Hwf _].
   apply andb_true_iff in Hwf. destruct Hwf as [Hwf _].
   unfold prop_b. apply (sound_run19 (c_steps c) (c_init c)); [exact Hwf| |exact Hc].
-  split; [reflexivity|]. split; [reflexivity|exact I].
+  split; [reflexivity|]. split; [reflexivity|]. split; [exact I|reflexivity].
 Qed.
